@@ -474,6 +474,34 @@ pub const FINDINGS: &[Finding] = &[
         hit: |_, n| matches!(n.e, Expr::Un(UnOp::RedXor | UnOp::RedXnor, _)) && n.ctx.w > 64,
     },
     Finding {
+        key: "unsigned-cast-interior-evaluated-unsigned",
+        what: "$unsigned(<signed expression>): every engine evaluates the interior as unsigned (operands zero-extended; `$unsigned(a + b)` with a = 8'sh01, b = 1'sh1 gives 2, LRM: 0) — the operand of $unsigned is self-determined with its own signedness",
+        hit: |m, n| matches!(n.e, Expr::Unsigned(a) if !matches!(**a, Expr::Ref(_) | Expr::Lit(_)) && ty_of(m, a).signed),
+    },
+    Finding {
+        key: "cc-wide-shift-amount-truncated-to-32-bits",
+        what: "cc: a shift in a context wider than 64 bits uses only the low 32 bits of the amount (`a >> b` into 257 bits with b = 40'h4000000000 returns a unshifted)",
+        hit: |m, n| match n.e {
+            Expr::Bin(op, _, b) if op.is_shift() => n.ctx.w > 64 && ty_of(m, b).w > 32,
+            _ => false,
+        },
+    },
+    Finding {
+        key: "comptime-inside-operand-width",
+        what: "compile-time evaluation of `inside e {items}` evaluates e at its own width instead of the width it shares with a wider item (`inside (a - b) {32'h0..=32'h7}` with 4-bit a < b gives 1; the engines and the emitted SV give 0)",
+        hit: |m, n| match n.e {
+            Expr::Inside(x, items, _) => {
+                let xw = ty_of(m, x).w;
+                !matches!(**x, Expr::Ref(_) | Expr::Lit(_))
+                    && items.iter().any(|i| match i {
+                        RangeItem::Val(v) => ty_of(m, v).w > xw,
+                        RangeItem::Incl(a, b) | RangeItem::Excl(a, b) => ty_of(m, a).w > xw || ty_of(m, b).w > xw,
+                    })
+            }
+            _ => false,
+        },
+    },
+    Finding {
         key: "const-fold-self-determined",
         what: "JIT: an operator over constants is folded at its self-determined width / sign instead of the context's",
         hit: |m, n| match n.e {
@@ -499,6 +527,11 @@ pub const MODULE_LEVEL_FINDINGS: &[(&str, &str)] = &[
         "an unpacked array driven by an always_ff and read with a run-time index: build_ir fails with `unsupported description` in the default mode or under disable_ff_opt (the other mode builds it)",
     ),
 ];
+
+/// Keys added after other checks started to depend on the choice-vector →
+/// design mapping of `GenCfg::default()`: they are NOT in the default `avoid`
+/// set (a check that wants them avoided inserts them into its own `GenCfg`).
+pub const NON_DEFAULT: &[&str] = &["unsigned-cast-interior-evaluated-unsigned", "cc-wide-shift-amount-truncated-to-32-bits", "comptime-inside-operand-width"];
 
 /// Known findings about an assignment as a whole: (key, description).
 pub const ASSIGN_FINDINGS: &[(&str, &str)] = &[
